@@ -1044,6 +1044,8 @@ class Fn:
 
     def assign(self, lhs, op, rhs):
         """lines of one assignment statement `lhs op rhs`"""
+        if op == "=" and rhs[0] == "assign" and rhs[1] == "=" and rhs[2][0] == "id" and self.vars.get(rhs[2][1], {}).get("kind") == "int":
+            return self.assign(rhs[2], "=", rhs[3]) + self.assign(lhs, "=", rhs[2])       # a = b = c
         # pointer locals
         if lhs[0] == "id" and self.vars.get(lhs[1], {}).get("kind") == "ptr":
             v = self.vars[lhs[1]]
@@ -1316,6 +1318,8 @@ class Fn:
         if init[0] == "decl" and len(init[1]) == 1 and init[1][0][2] is not None:
             return init[1][0][0], init[1][0][2]
         if init[0] == "expr" and init[1][0] == "assign" and init[1][1] == "=" and init[1][2][0] == "id":
+            if init[1][3][0] == "assign" and init[1][3][1] == "=" and init[1][3][2][0] == "id":
+                return init[1][3][2][1], init[1][3][3]                                 # for (a = i = c; …): the counter is i
             return init[1][2][1], init[1][3]
         return None
 
